@@ -403,6 +403,128 @@ Proof.
   rewrite (dict_get_del_other k_Length k_Filter d Length_ne_Filter), H. reflexivity.
 Qed.
 
+(* ---- a chain the caller's dictionary declares already ----
+   OpenStream with filters, on a dictionary that has /Filter: the caller has encoded the data and
+   says so; the new filters are applied on top, so a reader has to undo them first.  The written
+   dictionary lists the filters of OpenStream followed by the declared ones, the parameters index
+   by index beside the names (whatever the shape of the declaration: a name with or without a
+   parameter dictionary, an array with or without a parameter array, entries null or missing). *)
+Lemma stream_dict_declared n g d f fs o :
+  dict_get k_Filter d = Some o ->
+  stream_dict n g d (f :: fs) =
+  add_filters (add_filters (dict_del k_Filter (dict_del k_DecodeParms (dict_del k_Length d))) (f :: fs))
+              (old_chain (dict_del k_Length d)).
+Proof.
+  intros H. unfold stream_dict. cbv zeta.
+  rewrite (dict_get_del_other k_Length k_Filter d Length_ne_Filter), H. reflexivity.
+Qed.
+
+Lemma declared_base_clean d :
+  let base := dict_del k_Filter (dict_del k_DecodeParms d) in
+  dict_get k_Filter base = None /\ dict_get k_DecodeParms base = None.
+Proof.
+  cbv zeta. split; [apply dict_get_del_same|].
+  rewrite (dict_get_del_other k_Filter k_DecodeParms _ Filter_ne_DecodeParms). apply dict_get_del_same.
+Qed.
+
+(* the shape of the written dictionary, both cases *)
+Lemma stream_dict_repr_plain n g d fs :
+  dict_get k_Filter d = None -> dict_get k_DecodeParms d = None ->
+  chain_repr fs (stream_dict n g d fs) /\
+  single k_Filter (stream_dict n g d fs) /\ single k_DecodeParms (stream_dict n g d fs).
+Proof.
+  intros HF HD. rewrite (stream_dict_plain n g d fs HF).
+  set (d0 := dict_del k_Length d).
+  assert (HF0 : dict_get k_Filter d0 = None)
+    by (unfold d0; rewrite dict_get_del_other by exact Length_ne_Filter; exact HF).
+  assert (HD0 : dict_get k_DecodeParms d0 = None)
+    by (unfold d0; rewrite dict_get_del_other by exact Length_ne_DecodeParms; exact HD).
+  apply (add_filters_repr fs [] d0); [split; assumption | apply single_absent, HF0 | apply single_absent, HD0].
+Qed.
+
+Lemma stream_dict_repr_declared n g d f fs o :
+  dict_get k_Filter d = Some o ->
+  let sd := stream_dict n g d (f :: fs) in
+  chain_repr ((f :: fs) ++ old_chain (dict_del k_Length d)) sd /\
+  single k_Filter sd /\ single k_DecodeParms sd.
+Proof.
+  intros H. cbv zeta. rewrite (stream_dict_declared n g d f fs o H).
+  set (d0 := dict_del k_Length d).
+  destruct (declared_base_clean d0) as [B1 B2]. cbv zeta in B1, B2.
+  set (base := dict_del k_Filter (dict_del k_DecodeParms d0)) in *.
+  destruct (add_filters_repr (f :: fs) [] base) as [R [S1 S2]];
+    [split; assumption | apply single_absent, B1 | apply single_absent, B2 |].
+  cbn [app] in R.
+  exact (add_filters_repr (old_chain d0) (f :: fs) _ R S1 S2).
+Qed.
+
+(* the chain a reader finds in the caller's own dictionary is the chain [old_chain] takes from it,
+   provided the declaration is well formed: /Filter a name or an array of names *)
+Definition is_oname (o : obj) : bool := match o with OName _ => true | _ => false end.
+Definition decl_wf (d : dict) : Prop :=
+  single k_Filter d /\ single k_DecodeParms d /\
+  match dict_get k_Filter d with
+  | Some (OName _) => True
+  | Some (OArr names) => forallb is_oname names = true
+  | _ => False
+  end.
+
+Lemma norm_is_dict o q : norm o = ODict q -> exists p, o = ODict p /\ q = norm_parms p.
+Proof. destruct o; cbn [norm]; intros H; try discriminate H. injection H as <-. eexists. split; reflexivity. Qed.
+
+Lemma parms_head_norm pp :
+  match map norm pp with ODict p :: _ => p | _ => [] end =
+  norm_parms (match pp with ODict p :: _ => p | _ => [] end).
+Proof.
+  destruct pp as [|o pp]; [reflexivity|]. cbn [map].
+  destruct o; try reflexivity.
+Qed.
+
+Lemma fc_go_zip names : forall pp,
+  forallb is_oname names = true ->
+  fc_go (map norm names) (map norm pp) = rchain (zip_chain names pp).
+Proof.
+  induction names as [|nm names IH]; intros pp H; [reflexivity|].
+  cbn [forallb] in H. apply andb_true_iff in H as [H1 H2].
+  destruct nm; try discriminate H1.
+  cbn [map norm fc_go zip_chain rchain fst snd]. fold (rchain (zip_chain names (tl pp))).
+  rewrite parms_head_norm. f_equal.
+  rewrite <- (IH (tl pp) H2). f_equal. destruct pp; reflexivity.
+Qed.
+
+Lemma as_dict_norm o :
+  as_dict (match o with Some v => if is_null v then None else Some (norm v) | None => None end) =
+  norm_parms (as_dict o).
+Proof.
+  destruct o as [v|]; [|reflexivity]. destruct v; try reflexivity.
+Qed.
+
+Lemma old_chain_read_back d :
+  decl_wf d -> filter_chain (norm_parms d) = rchain (old_chain d).
+Proof.
+  intros (S1 & S2 & W). rewrite filter_chain_unfold, !dict_get_norm_parms, S1, S2.
+  unfold old_chain. destruct (dict_get k_Filter d) as [o|]; [|contradiction].
+  destruct o; try contradiction.
+  - (* a name *)
+    cbn [is_null norm rchain map fst snd]. rewrite as_dict_norm. reflexivity.
+  - (* an array of names *)
+    cbn [is_null norm].
+    destruct (dict_get k_DecodeParms d) as [v|].
+    + destruct v; cbn [is_null norm];
+        try (change (@nil obj) with (map norm (@nil obj))); apply fc_go_zip, W.
+    + change (@nil obj) with (map norm (@nil obj)). apply fc_go_zip, W.
+Qed.
+
+Lemma chain_repr_first f l sd : chain_repr (f :: l) sd ->
+  dict_get k_Filter sd = Some (OName (fst f)) \/
+  exists rest, dict_get k_Filter sd = Some (OArr (OName (fst f) :: rest)).
+Proof.
+  destruct l as [|f1 l]; intros R.
+  - left. apply R.
+  - right. change (repr_many (f :: f1 :: l) sd) in R. destruct R as [R _].
+    eexists. rewrite R. reflexivity.
+Qed.
+
 Section Chain.
   Variable fenc : bytes -> dict -> bytes -> bytes.
   Variable fdec : bytes -> dict -> bytes -> option bytes.
@@ -420,6 +542,26 @@ Section Chain.
     destruct (add_filters_repr fs [] d) as [R [S1 S2]];
       [split; assumption | apply single_absent, HF | apply single_absent, HD |].
     exact (filter_chain_repr _ _ R S1 S2).
+  Qed.
+
+  (* (C1') ... and when the caller's dictionary declares a chain: the filters of OpenStream first,
+     then the declared chain as a reader of the caller's own dictionary would find it *)
+  Theorem filter_chain_declared n g d f fs o :
+    dict_get k_Filter d = Some o ->
+    filter_chain (dict_of (norm (ODict (stream_dict n g d (f :: fs))))) =
+    rchain (f :: fs) ++ rchain (old_chain (dict_del k_Length d)).
+  Proof.
+    intros H. rewrite dict_of_norm.
+    destruct (stream_dict_repr_declared n g d f fs o H) as [R [S1 S2]].
+    rewrite (filter_chain_repr _ _ R S1 S2). unfold rchain. apply map_app.
+  Qed.
+
+  Corollary filter_chain_declared_wf n g d f fs o :
+    dict_get k_Filter d = Some o -> decl_wf (dict_del k_Length d) ->
+    filter_chain (dict_of (norm (ODict (stream_dict n g d (f :: fs))))) =
+    rchain (f :: fs) ++ filter_chain (norm_parms (dict_del k_Length d)).
+  Proof.
+    intros H W. rewrite (filter_chain_declared n g d f fs o H), (old_chain_read_back _ W). reflexivity.
   Qed.
 
   (* (C2) decoding in the order of the chain inverts the encoders *)
@@ -458,6 +600,44 @@ Section Chain.
     assert (Hd : has_crypt_first d = false) by (unfold has_crypt_first; rewrite HF; reflexivity).
     rewrite Hd. cbn [negb andb]. rewrite andb_true_r.
     destruct (encrypted c); [rewrite Hdec|]; apply decode_encode_chain.
+  Qed.
+  (* (C3') the data of a stream written on a declared chain: undoing everything the written
+     dictionary lists is undoing the declared chain on the bytes the caller handed to Write *)
+  Lemma decode_chain_app a b x :
+    decode_chain fdec (a ++ b) x =
+    match decode_chain fdec a x with Some y => decode_chain fdec b y | None => None end.
+  Proof.
+    revert x. induction a as [|[f p] a IH]; intros x; [reflexivity|].
+    cbn [app decode_chain]. destruct (fdec f p x); [apply IH | reflexivity].
+  Qed.
+
+  Theorem stream_data_declared (encB decB : N -> N -> bytes -> bytes) (c : cfg) (encd : bool)
+          (rs : rstate) n g d (f : filt) (fs : list filt) o data :
+    (forall n g s, decB n g (encB n g s) = s) ->
+    encd = encrypted c ->
+    dict_get k_Filter d = Some o -> has_crypt_first d = false ->
+    bytes_eqb (fst f) k_Crypt = false ->
+    existsb (N.eqb n) (rplain rs) = false ->
+    stream_data decB fdec encd rs n g
+      (dict_of (norm (ODict (stream_dict n g d (f :: fs)))))
+      (stream_raw encB fenc c n g d (f :: fs) data) =
+    decode_chain fdec (rchain (old_chain (dict_del k_Length d))) data.
+  Proof.
+    intros Hdec -> HF Hd Hc Hplain. rewrite dict_of_norm.
+    destruct (stream_dict_repr_declared n g d f fs o HF) as [R [S1 S2]].
+    assert (Hcf : has_crypt_first (norm_parms (stream_dict n g d (f :: fs))) = false).
+    { unfold has_crypt_first. rewrite dict_get_norm_parms, S1.
+      cbn [app] in R. destruct (chain_repr_first _ _ _ R) as [E|[rest E]]; rewrite E;
+        cbn [is_null norm map]; exact Hc. }
+    unfold stream_data. rewrite Hplain, Hcf. rewrite (filter_chain_repr _ _ R S1 S2).
+    unfold stream_raw, bc. rewrite Hd. cbn [negb andb]. rewrite andb_true_r.
+    assert (E : decode_chain fdec (rchain (f :: fs)) (encode_chain fenc (f :: fs) data) = Some data)
+      by (exact (decode_encode_chain (f :: fs) data)).
+    assert (A : rchain ((f :: fs) ++ old_chain (dict_del k_Length d)) =
+                rchain (f :: fs) ++ rchain (old_chain (dict_del k_Length d)))
+      by (unfold rchain; exact (map_app _ (f :: fs) _)).
+    rewrite A, decode_chain_app.
+    destruct (encrypted c); cbn [andb]; [rewrite Hdec|]; rewrite E; reflexivity.
   Qed.
 End Chain.
 
